@@ -1176,6 +1176,45 @@ fn keystream_next(secret: &[u8], prev_cipher: &[u8]) -> [u8; 16] {
     md5::md5(&buf)
 }
 
+/// Rewrite 16 octets of `payload` so that ciphertext block `block` (>= 1,
+/// lying wholly inside the payload) of the hidden value comes out as
+/// `target` — an all-zero block, an all-ones block, a repeat of the block
+/// before it. (Plaintext = keystream XOR target; the keystream of a block is
+/// fixed by the blocks before it.) `false` when the payload is too short.
+pub fn force_cipher_block(
+    attr: u16,
+    payload: &mut [u8],
+    secret: &[u8],
+    rv: &[u8],
+    conv: LenConv,
+    block: usize,
+    target: Option<[u8; 16]>,
+) -> bool {
+    if block == 0 || payload.len() < 16 * block + 14 {
+        return false;
+    }
+    let l = (payload.len() + conv.bias()) as u16;
+    let mut plain = l.to_be_bytes().to_vec();
+    plain.extend_from_slice(&payload[..16 * block - 2]);
+    // ciphertext of the blocks before
+    let mut prev = [0u8; 16];
+    let mut key = keystream_first(attr, secret, rv);
+    for i in 0..block {
+        if i > 0 {
+            key = keystream_next(secret, &prev);
+        }
+        for j in 0..16 {
+            prev[j] = plain[16 * i + j] ^ key[j];
+        }
+    }
+    let key = keystream_next(secret, &prev);
+    let target = target.unwrap_or(prev);
+    for j in 0..16 {
+        payload[16 * block - 2 + j] = key[j] ^ target[j];
+    }
+    true
+}
+
 /// The hidden value for (attr, payload). `None` when the plaintext does not
 /// fit the construction (alignment padding longer than supplied).
 pub fn spec_hide(
